@@ -258,7 +258,7 @@ def corruptions(ev, rnd):
     nz = [k for k in range(n) if fl(ev["E"]["T"]["TSC"][k]) != 0.0]
     if not nz:
         return out
-    k = rnd.choice(nz)
+    k = max(nz, key=lambda q: abs(fl(ev["E"]["T"]["TSC"][q])))
     mod(["T", "TSC", k], lambda v: v * (1 + 1e-6), [("TSC", k + 1)])
     mod(["T", "SC", k], lambda v: v * (1 + 1e-6), [("SC", k + 1)])
     mod(["S", 0], lambda v: v * (1 + 1e-6), [("seidel_sum", 1)])
@@ -269,7 +269,9 @@ def corruptions(ev, rnd):
     for fam in ("CC", "TAC", "TPC", "DC"):
         ks = [j for j in range(n) if abs(fl(ev["E"]["T"][fam][j])) > 1e-12]
         if ks:
-            j = rnd.choice(ks)
+            # (the term of largest magnitude: a relative change of 1e-6 in a term far below the
+            # family's scale is inside the clause's tolerance and proves nothing)
+            j = max(ks, key=lambda q: abs(fl(ev["E"]["T"][fam][q])))
             mod(["T", fam, j], (lambda v: -v) if fam == "DC" else (lambda v: v * (1 + 1e-6)), [(fam, j + 1)])
     ks = [j for j in range(n) if abs(fl(ev["E"]["T"]["CC"][j])) > 1e-12]
     if ks:
@@ -337,7 +339,10 @@ def trace_phase(work, seed, quick, fut_rand, fut_samp):
                             "/dispersive" if i["dispersive"] else "", "/zero-field" if i["zero_invariant"] else "")
         bycls[key] = bycls.get(key, 0) + 1
     res["extra"]["trace_events_by_class"] = bycls
+    # (events in identities-only mode - lenses with an image medium - are not corrupted: the formula
+    # clauses a corruption is expected to trip are not judged there)
     clean = [e for e in judged if not e["info"]["has_mirror"] and not e["info"]["zero_invariant"]
+             and not e["E"].get("ident")
              and all(n in ("operand_surface", "TAchC", "TchC") for n, _ in e["base"])]
     if clean:
         a = clean[0]
